@@ -266,6 +266,9 @@ func schemaLean(repo string) []string {
 		{"x/pos/types", "MsgUnjail", "schemaMsgUnjail"},
 		{"x/gov/types", "MsgDAOTransfer", "schemaMsgDAOTransfer"},
 		{"x/gov/types", "MsgChangeParam", "schemaMsgChangeParam"},
+		{"x/pos/types", "MsgStake", "schemaMsgStake"},
+		{"x/gov/types", "MsgUpgrade", "schemaMsgUpgrade"},
+		{"x/gov/types", "Upgrade", "schemaUpgrade"},
 		{"x/auth/types", "StdTx", "schemaStdTx"},
 		{"x/auth/types", "StdSignature", "schemaStdSignature"},
 		{"types", "Coin", "schemaCoin"},
